@@ -93,7 +93,7 @@ func check(text string) (vs []engine.Violation, outcome string, items int) {
 	})
 	verifrt.SetHorizon(0)
 	for _, p := range s.Points {
-		if p.Op.Kind == verifrt.OpSend {
+		if p.Op.Kind == verifrt.OpSend || p.Op.Kind == verifrt.OpSelect {
 			items++
 		}
 	}
